@@ -112,6 +112,94 @@ def run(ctx):
     _relabel(ctx, ('C09.5',), 'C13.3')
     delegation(ctx)
     slice_none(ctx)
+    index_space(ctx)
+
+
+def index_space(ctx):
+    """C13.6: every value handed to an accessor's values_function lives in the index space that function takes.
+    Spaces: ORDINAL (position: range(..), slice.indices, len + i) and VALUE (line number / sample coordinate: the
+    entries of an axis array).  The domain of values_function is read off the parameter name of the bound reader method
+    (*_no / *_coord / *_number -> VALUE, *_id / index / i -> ORDINAL); the space of keys_object off what it is bound
+    to (axis array -> VALUE, range(..) -> ORDINAL).  Checked per concrete accessor class through its MRO."""
+    P = ctx.P
+    ctx.rule('C13.6', 'values handed to values_function are in its index space (ordinal vs line number / coordinate), per accessor class')
+    base = P.cls('accessors.Accessor')
+    reader = P.cls(RF.READER)
+    n = 0
+    for c in base.all_subclasses():
+        init = c.methods.get('__init__')
+        if init is None:
+            continue
+        bound = {}
+        for a in ast.walk(init.node):
+            if isinstance(a, ast.Assign) and U(a.targets[0]) in ('self.values_function', 'self.keys_object'):
+                bound[U(a.targets[0]).split('.')[1]] = a.value
+        if len(bound) < 2:
+            continue      # intermediate class
+        vf = bound['values_function']
+        m = reader.find_method(vf.attr) if isinstance(vf, ast.Attribute) else None
+        if m is None or len(m.params) < 2:
+            raise AnalysisError('%s: values_function is not bound to a reader method' % c.qualname)
+        pname = m.params[1]
+        if pname.endswith(('_no', '_coord', '_number')):
+            dom = 'VALUE'
+        elif pname.endswith('_id') or pname in ('index', 'i'):
+            dom = 'ORDINAL'
+        else:
+            raise AnalysisError('%s: cannot tell the index space of %s(%s)' % (c.qualname, m.name, pname))
+        kt = U(bound['keys_object'])
+        if kt.startswith('range('):
+            kspace = 'ORDINAL'
+        elif kt in ('self.ilines', 'self.xlines', 'self.zslices'):
+            kspace = 'VALUE'
+        else:
+            raise AnalysisError('%s: cannot tell the index space of keys_object = %s' % (c.qualname, kt))
+        # methods as resolved for this class
+        seen = set()
+        for k in c.mro:
+            for name, meth in k.methods.items():
+                if name in seen:
+                    continue
+                seen.add(name)
+                for call in ast.walk(meth.node):
+                    if not (isinstance(call, ast.Call) and U(call.func) == 'self.values_function' and call.args):
+                        continue
+                    arg = call.args[0]
+                    # where does the argument come from?
+                    space = None
+                    src = arg
+                    comp = parent(call)
+                    while comp is not None and not isinstance(comp, (ast.ListComp, ast.GeneratorExp, ast.For, ast.FunctionDef)):
+                        comp = parent(comp)
+                    it = None
+                    if isinstance(comp, (ast.ListComp, ast.GeneratorExp)) and isinstance(arg, ast.Name) and \
+                            U(comp.generators[0].target) == arg.id:
+                        it = comp.generators[0].iter
+                    elif isinstance(comp, ast.For) and isinstance(arg, ast.Name) and U(comp.target) == arg.id:
+                        it = comp.iter
+                    if it is not None:
+                        if 'keys_object' in U(it):
+                            space = kspace
+                        elif isinstance(it, ast.Call) and U(it.func) == 'range':
+                            space = 'VALUE' if k.name == 'SliceAccessor' else 'ORDINAL'
+                    else:
+                        space = 'VALUE' if k.name == 'SliceAccessor' else 'ORDINAL'
+                    if space is None:
+                        raise AnalysisError('%s.%s: cannot tell the index space of `%s`' % (k.name, name, U(arg)))
+                    n += 1
+                    if space == dom:
+                        ctx.ok('C13.6', meth, '%s: %s in %s.%s' % (c.name, U(call)[:40], k.name, name),
+                               '%s takes %s and receives %s' % (m.name, dom, space))
+                    else:
+                        ctx.fail('C13.6', meth, enclosing_stmt(call), 'for %s, %s.%s hands %s to values_function = %s(%s), which takes %s: '
+                                 '%s' % (c.name, k.name, name,
+                                         'the entries of keys_object (%s: %s)' % (kt, 'line numbers / coordinates' if space == 'VALUE' else 'ordinals')
+                                         if it is not None and 'keys_object' in U(it) else ('a %s' % space.lower()),
+                                         m.name, pname, 'an ordinal' if dom == 'ORDINAL' else 'a line number / coordinate',
+                                         'iteration / slicing of this accessor raises or returns other items than segyio'),
+                                 line=call.lineno, key_extra=c.name)
+    if n < 8:
+        raise AnalysisError('accessor index spaces: only %d values_function call sites found' % n)
 
 
 def slice_none(ctx):
